@@ -662,6 +662,12 @@ def native_model(key):
     return deco
 
 
+@native_model("tqdm.std.tqdm")
+def _m_tqdm(interp, args, kwargs):
+    interp.used_models.add("tqdm(iterable, ...): a progress bar; iterating it yields the items of the iterable in order")
+    return args[0]
+
+
 @native_model("zorg.service.templates.ZorgTemplateManager")
 def _m_template_manager(interp, args, kwargs):
     from zorg.service.templates import ZorgTemplateManager
